@@ -452,6 +452,7 @@ class ModelBasedSearcher(StochasticSearcher):
             model_params=self.model_parameters(),
             state=encode_state(self.state_transformer.state),
             skip_optimization=self.state_transformer.skip_optimization,
+            num_evaluations=self.state_transformer.num_evaluations,
         )
         if self._restrict_configurations is not None:
             state["restrict_configurations"] = self._restrict_configurations
@@ -460,6 +461,9 @@ class ModelBasedSearcher(StochasticSearcher):
     def _restore_from_state(self, state: Dict[str, Any]):
         super()._restore_from_state(state)
         self.state_transformer.set_params(state["model_params"])
+        if state.get("num_evaluations") is not None:
+            # Otherwise, model parameters would be refit on unchanged data
+            self.state_transformer.num_evaluations = state["num_evaluations"]
         self._restrict_configurations = state.get("restrict_configurations")
         # The internal random searcher is generated once needed, and it shares its
         # ``random_state`` with this searcher here
